@@ -199,6 +199,7 @@ type wrec struct {
 
 // wbatch is one record batch (v2) or one top-level legacy message (possibly a compressed wrapper).
 type wbatch struct {
+	wrapperOnlyTs bool // LogAppendTime stamped on a v1 wrapper only (inner messages untouched)
 	magic      int8
 	codec      int // 0 none 1 gzip 2 snappy 3 lz4 4 zstd
 	baseOffset int64
@@ -684,11 +685,17 @@ func encodeLegacy(wb *wbatch, absInner bool) []byte {
 		if wb.magic == 0 || absInner {
 			off = wb.baseOffset + rec.delta
 		}
-		ts := rec.tsMs
+		ts, ia := rec.tsMs, tsAttr
 		if tsAttr != 0 {
 			ts = wb.maxTs
+			if wb.wrapperOnlyTs {
+				// in-place stamping (KIP-32: no re-compression): only the wrapper carries the broker's time and
+				// the timestamp-type bit, the inner messages keep what the producer wrote; a reader must take the
+				// type from the wrapper
+				ts, ia = rec.tsMs, 0
+			}
 		}
-		inner.raw(encodeLegacyMessage(wb.magic, off, tsAttr, ts, rec.key, rec.val))
+		inner.raw(encodeLegacyMessage(wb.magic, off, ia, ts, rec.key, rec.val))
 	}
 	// wrapper offset = offset of the last inner message
 	return encodeLegacyMessage(wb.magic, wb.baseOffset+last, int8(wb.codec)|tsAttr, wb.maxTs, nil, compress(wb.codec, inner.b))
